@@ -346,6 +346,11 @@ def P23(m, R):
     f = m.fn('AnsiSetting.to_list')
     sites = [n for n in f.walk() if isinstance(n, ast.Call) and call_name(n) == 'int' and isinstance(n.func, ast.Name)]
     if not sites:
+        # a convert-or-keep helper called by to_list
+        for n in f.walk():
+            if isinstance(n, ast.Call) and isinstance(n.func, ast.Name) and n.func.id in m.funcs:
+                sites += [x for x in m.funcs[n.func.id].walk() if isinstance(x, ast.Call) and call_name(x) == 'int' and isinstance(x.func, ast.Name)]
+    if not sites:
         R.ok(f, f.node, 'to_list does not use int() on setting text', construct='int() on setting text')
         return
     for s in sites:
